@@ -39,6 +39,15 @@ def positional_args(rep, rule, where, arm_pat, body, callee_rx, label):
         for i, comp in enumerate(alt[1]):
             for b in find(comp, "pident"):
                 pos[b[1]] = i
+        # locals derived from a positional operand (leftmost operand name of the initialiser, e.g. rhs.convert_to(&lhs.kind()))
+        for node in list(find(body, "letc")) + [l for l in find(body, "let") if len(l) == 4]:
+            init = node[2]
+            if init is None:
+                continue
+            names = [x[1] for x in find(init, "path") if x[1] in pos]
+            if names:
+                for b in find(node[1], "pident"):
+                    pos.setdefault(b[1], pos[names[0]])
         for c in find(body, "call"):
             p = path_of(c[1])
             if not p or not re.search(callee_rx, p) or len(c[2]) != 2:
